@@ -1,41 +1,114 @@
-"""C08 translator: the width in which the multi-hash update template evaluates
-`len + partial_block_len` -> coq/Gen/MhCarryGen.v.  The three update templates must agree and
-the condition must be one of the two recognised texts, else the check fails closed."""
+"""C08 translator: the width in which the multi-hash update template evaluates its
+"not enough data" test -> coq/Gen/MhCarryGen.v (mh_sum_bits: 32 = the test can wrap in uint32_t,
+64 = the test is exact for every uint32_t len).
+
+The test is located structurally: the `if (COND) { memcpy(BUF + P, SRC, LEN); return ...` whose
+copy length LEN is the function's length parameter.  P must be defined (once, before the test)
+as `ctx->total_length % BLOCK`, so P < BLOCK.  Locals that are assigned exactly once before the
+test (e.g. `fill_len = BLOCK - P`) are substituted into COND; names are canonicalised
+(L = length parameter, P, B = block-size macro), so renamed locals and statements moved around
+without crossing the test do not matter.  Recognised conditions:
+
+  wrap-prone (32):  L + P < B   (either operand order, or written B > L + P), all uint32_t
+  exact (64):       the same with a (uint64_t) cast on L and/or P
+                    L < B - P   (or B - P > L): cannot wrap because P < B (checked above)
+
+The three update templates must agree; anything else raises (the check fails closed)."""
 import os, re
 
 FILES = [("mh_sha1/mh_sha1_update_base.c", "ISAL_MH_SHA1_BLOCK_SIZE"),
          ("mh_sha256/mh_sha256_update_base.c", "ISAL_MH_SHA256_BLOCK_SIZE"),
          ("mh_sha1_murmur3_x64_128/mh_sha1_murmur3_x64_128_update_base.c", "ISAL_MH_SHA1_BLOCK_SIZE")]
 
+WRAP32 = {"L+P<B", "P+L<B", "B>L+P", "B>P+L"}
+EXACT = {"L<B-P", "B-P>L"}
+
+
+def strip(src):
+    src = re.sub(r"/\*.*?\*/", "", src, flags=re.S)
+    src = re.sub(r"//[^\n]*", "", src)
+    return src
+
+
+def width_of(path, blk):
+    src = strip(open(path).read())
+    # the update function: the one whose parameter list ends with `uint32_t <len>)`
+    m = re.search(r"\(\s*struct\s+\w+\s*\*\s*(\w+)\s*,\s*const\s+void\s*\*\s*(\w+)\s*,\s*(uint32_t|uint64_t|size_t)\s+(\w+)\s*\)\s*\{", src)
+    if not m:
+        raise ValueError("%s: update function signature not recognised" % path)
+    ctx, _, lentype, L = m.groups()
+    body = src[m.end():]
+    t = re.search(r"if\s*\(([^{};]*)\)\s*\{\s*memcpy\s*\(\s*(\w+)\s*\+\s*(\w+)\s*,\s*(\w+)\s*,\s*(\w+)\s*\)\s*;\s*return\b", body)
+    if not t:
+        raise ValueError("%s: the 'not enough data' branch (if (...) { memcpy(buf + partial, src, len); return) was not recognised" % path)
+    cond, _buf, P, _src, cplen = t.groups()
+    if cplen != L:
+        raise ValueError("%s: the short-input branch copies %r bytes, not the length parameter %r" % (path, cplen, L))
+    pre = body[:t.start()]
+    # the length parameter must reach the test unmodified
+    if re.search(r"\b%s\s*(=(?!=)|[-+*/%%&|^]=|\+\+|--)" % re.escape(L), pre) or re.search(r"(\+\+|--)\s*%s\b" % re.escape(L), pre):
+        raise ValueError("%s: the length parameter is modified before the test" % path)
+    # single assignments before the test
+    assigns = {}
+    for a in re.finditer(r"(?<![\w>.])(\w+)\s*=(?!=)\s*([^;{}]+);", pre):
+        assigns.setdefault(a.group(1), []).append(re.sub(r"\s+", "", a.group(2)))
+    for name in list(assigns):
+        if re.search(r"\b%s\s*([-+*/%%&|^]=|\+\+|--)" % re.escape(name), pre):
+            assigns[name].append("<modified>")
+    pdef = assigns.get(P, [])
+    ok_p = {"%s->total_length%%%s" % (ctx, blk), "(uint32_t)(%s->total_length%%%s)" % (ctx, blk),
+            "(uint32_t)%s->total_length%%%s" % (ctx, blk), "%s->total_length&(%s-1)" % (ctx, blk)}
+    if len(pdef) != 1 or pdef[0] not in ok_p:
+        raise ValueError("%s: %s is not defined once as total_length %% %s before the test (%s)" % (path, P, blk, pdef))
+    # declared widths of the two operands (for the wrap-prone reading)
+    def decl32(name):
+        return bool(re.search(r"\buint32_t\b[^;()]*\b%s\b[^;()]*;" % re.escape(name), src)) or (name == L and lentype == "uint32_t")
+    c = re.sub(r"\s+", "", cond)
+    for _ in range(4):                                   # substitute single-assignment locals
+        changed = False
+        for name, defs in assigns.items():
+            if name in (P, L) or len(defs) != 1:
+                continue
+            if re.search(r"\b%s\b" % re.escape(name), c):
+                c = re.sub(r"\b%s\b" % re.escape(name), "(" + defs[0] + ")", c)
+                changed = True
+        if not changed:
+            break
+    c = re.sub(r"\b%s\b" % re.escape(L), "L", c)
+    c = re.sub(r"\b%s\b" % re.escape(P), "P", c)
+    c = re.sub(r"\b%s\b" % re.escape(blk), "B", c)
+    casted = "(uint64_t)" in c
+    c = c.replace("(uint64_t)", "")
+    c = c.replace("(", "").replace(")", "")
+    if c in WRAP32:
+        if casted:
+            return 64
+        if decl32(L) and decl32(P):
+            return 32
+        raise ValueError("%s: operand types of %r are not both uint32_t and there is no uint64_t cast" % (path, cond))
+    if c in EXACT and not casted:
+        return 64                                        # L < B - P with P < B: no wrap-around
+    if c in EXACT and casted:
+        return 64
+    raise ValueError("%s: condition %r (canonical %r) not recognised" % (path, cond.strip(), c))
+
 
 def width(repo):
-    ws = set()
+    ws = {}
     for f, blk in FILES:
-        src = open(os.path.join(repo, f)).read()
-        src = re.sub(r"/\*.*?\*/", "", src, flags=re.S)
-        src = re.sub(r"//[^\n]*", "", src)
-        m = re.search(r"if\s*\(([^{};]*partial_block_len[^{};]*)<\s*%s\s*\)\s*\{\s*memcpy\s*\(\s*partial_block_buffer\s*\+\s*partial_block_len\s*,\s*input_data\s*,\s*len\s*\)" % blk, src)
-        if not m:
-            raise ValueError("%s: the 'not enough data' branch was not recognised" % f)
-        e = re.sub(r"\s+", "", m.group(1))
-        if e == "len+partial_block_len":
-            if not re.search(r"uint32_t\s+partial_block_len\s*;", src) or not re.search(r"uint32_t\s+len\s*\)", src):
-                raise ValueError("%s: len / partial_block_len are no longer uint32_t" % f)
-            ws.add(32)
-        elif e in ("(uint64_t)len+partial_block_len", "len+(uint64_t)partial_block_len", "(uint64_t)len+(uint64_t)partial_block_len"):
-            ws.add(64)
-        else:
-            raise ValueError("%s: condition %r not recognised" % (f, e))
-    if len(ws) != 1:
-        raise ValueError("the three update templates disagree on the width of the sum: %s" % sorted(ws))
-    return ws.pop()
+        ws[f] = width_of(os.path.join(repo, f), blk)
+    if len(set(ws.values())) != 1:
+        raise ValueError("the three update templates disagree on whether the test can wrap: %s" % ws)
+    return set(ws.values()).pop()
 
 
 def generate(repo):
     w = width(repo)
     return ("(* generated by tr/mh_carry.py from mh_sha1/mh_sha256/mh_sha1_murmur3_x64_128 *_update_base.c - do not edit *)\n"
             "From Coq Require Import NArith.\n"
-            "(* width, in bits, in which `len + partial_block_len < BLOCK_SIZE` is evaluated *)\n"
+            "(* width, in bits, in which the `not enough data` test of the update template is exact:\n"
+            "   32 = a plain uint32_t sum len + partial_block_len (wraps); 64 = a 64-bit sum or the\n"
+            "   subtraction form len < BLOCK_SIZE - partial_block_len (no uint32_t len can wrap) *)\n"
             "Definition mh_sum_bits : N := %d%%N.\n" % w)
 
 
